@@ -35,6 +35,8 @@ for p in props:
             focus = "FOCUS FOR THIS ATTEMPT: the property quantifies over schedules / fault timings. Produce a change whose breakage needs a particular INTERLEAVING of goroutines or a fault / cancellation / time-out landing at a particular moment - something a sequential test of the same operations would never show - and that involves a code path, lock, channel, timer or callback that NONE of the earlier attempts listed below involved (read them carefully; many windows have been used already: pick an unused one, e.g. a different pair of racing operations, a different error path, a second instance of an object, a re-entrant callback, shutdown while starting up). Your demonstration may force the interleaving with hooks, callbacks or channels that exist in the code or in your test's fakes."
         else:
             focus = "FOCUS FOR THIS ATTEMPT: produce a change that needs a history of FOUR OR MORE operations to manifest (state left behind by an earlier rejected / no-op / repeated / undone operation, a counter or flag that only goes wrong on the second cycle, something that works once and fails after remove-and-re-add, reset-and-refill, or close-and-reopen), in a mechanism NONE of the earlier attempts listed below used. Read them carefully and pick an unused one."
+    if wave >= 'w16':
+        focus = "FOCUS FOR THIS ATTEMPT: produce a change whose breakage needs a SIZE or COUNT threshold to be crossed - it behaves correctly with one or two of something and goes wrong only with THREE TO SIX of them (subscribers, targets, paths in one subscription, updates in one notification, list keys, path elements, queued items, pending duplicates, reconnect attempts, holders of one connection, values in a generator, elements past a preallocated capacity, a counter reaching a small constant, the third repetition of a cycle) - for example a slice that aliases once it grows past its initial capacity, an index that is off by one only from the third element on, a fast path for 'small' inputs whose boundary is wrong, a fixed-size buffer or channel capacity, a loop that stops one short. Keep the threshold SMALL (3 to 6) so that a short test can cross it, and use a mechanism NONE of the earlier attempts listed below used."
     prop_text = json.dumps({k: p[k] for k in ('id','title','statement','quantifier','why_tests_cant','anchors') if k in p}, indent=1)
     txt = f"""You are helping to evaluate a verification framework for the Go repository openconfig/gnmi (reference gNMI implementation: client library, CLI, caching collector with a timestamped path-tree cache and a Subscribe server). You have your OWN scratch git worktree of the repository at {wt} (a detached checkout of the current HEAD). Work ONLY inside {wt} and write your results to {out}/ . Never touch /repo or /verif and do not read anything under /verif.
 
